@@ -89,8 +89,8 @@ func (g *posaGen) run(long bool) {
 	if r.Rng.Chance(1, 3) {
 		gnum = 1 + uint64(r.Rng.Intn(60))
 	}
-	if long {
-		gnum = 200 * uint64(1+r.Rng.Intn(3))
+	if long { // crosses two multiples of 200 (the epoch length of the real chains); at most ~290 ops so that a replay keeps the whole case
+		gnum = 200*uint64(1+r.Rng.Intn(3)) - 20 - uint64(r.Rng.Intn(15))
 	}
 	npv := r.Rng.Intn(maxV + 1)
 	pv := r.Rng.Perm(posaPool)[:npv]
@@ -141,7 +141,7 @@ func (g *posaGen) run(long bool) {
 	}
 	steps := 25 + r.Rng.Intn(r.Pick(40, 90))
 	if long {
-		steps = 430 + r.Rng.Intn(60)
+		steps = 262 + r.Rng.Intn(20)
 	}
 	mutRate := 3 + r.Rng.Intn(4) // one in mutRate steps is a mutation
 	if long {
